@@ -112,6 +112,48 @@ def wrap_obligations(rep):
                 v = pysym.verify(BASE, 'ASTNode.to_string', make_args, post)
                 _emit(rep, f'C01.wrap.par{int(par)}.alias{int(has_alias)}.want{int(want_alias)}', v, fn,
                       'ensures to_string() == ["("] get_string() [")"] [" AS " alias.to_string(alias=False)]')
+    # classes overriding the two helpers of the wrapper must satisfy the helper's own contract (the wrapper law above is proved against the base helpers)
+    mods_ = [x for x in repo.all_repo_modules() if x.startswith('mindsdb_sql')]
+    helpers = [(m, c, meth) for (m, c, meth) in frames.class_defines({'maybe_add_parentheses', 'maybe_add_alias'}, mods_) if c != 'ASTNode']
+    rep.census['wrapper_helper_overriders'] = [f'{c}.{meth}' for m, c, meth in helpers]
+    if not helpers:
+        rep.proved('C01.wrap.helpers', 'frames', 'no class overrides maybe_add_parentheses / maybe_add_alias', function=fn, clause='every node class prints through the base helpers')
+    for m, c, meth in helpers:
+        K = getattr(repo.import_module(m), c)
+        for flag in (True, False):
+            def make_args(ex, K=K, flag=flag, meth=meth):
+                node = SymObj({K}, 'node', prov='param')
+                node.known_not_none = True
+                body = pysym.mk_str('body')
+                a = pysym.mk_str('alias_text')
+                node.fields['parentheses'] = flag
+                if meth == 'maybe_add_alias':
+                    al = SymObj({ASTNode}, 'alias', prov='param')
+                    al.subclass_ok = True
+                    al.fields['to_string'] = Stub(lambda ex_, ar, k: a, 'alias.to_string')
+                    node.fields['alias'] = al if flag else None
+                ex.path_state.update(s=body, a=a)
+                return [node, body], {}
+
+            def post(ex, o, flag=flag, meth=meth):
+                if o.kind != 'return':
+                    return f'raises {o.value.__name__}'
+                s_, a_ = o.state['s'].t, o.state['a'].t
+                if meth == 'maybe_add_parentheses':
+                    want = z3.Concat(z3.StringVal('('), s_, z3.StringVal(')')) if flag else s_
+                else:
+                    want = z3.Concat(s_, z3.StringVal(' AS '), a_) if flag else s_
+                got = o.value
+                gz = got.t if isinstance(got, SymVal) else z3.StringVal(got) if isinstance(got, str) else None
+                if gz is None:
+                    return f'returns {got!r}'
+                ok, _ = ex.valid(gz == want, pc=o.pc)
+                return None if ok else (f'{"user-written parentheses are dropped" if meth == "maybe_add_parentheses" and flag else "result"}: returns {got!r}')
+            v = pysym.verify(m, f'{c}.{meth}', make_args, post)
+            sample = {'Constant': 'select -(1), (1) + 2'}.get(c, None)
+            _emit(rep, f'C01.wrap.helper.{c}.{meth}.{int(flag)}', v, f'{m}:{c}.{meth}',
+                  'an overriding helper satisfies the base contract: parentheses=True => "(" body ")"; alias => body " AS " alias',
+                  replay=(lambda sample=sample: replay_rt(sample, 'mindsdb')) if sample else None)
     # classes overriding to_string must honour parentheses and alias themselves
     over = [(m, c) for (m, c, meth) in frames.class_defines({'to_string'}, [x for x in repo.all_repo_modules() if x.startswith('mindsdb_sql')]) if c != 'ASTNode']
     rep.census['to_string_overriders'] = [c for m, c in over]
